@@ -6,33 +6,59 @@
 From Coq Require Import ZArith List Bool Arith.
 From NQ Require Import Sdk.SdkAst Sdk.Target Sdk.Eval Sdk.MemMgr Sdk.Lower Sdk.Flatten Sdk.Writes
   Sdk.SdkCheck Sdk.Wf.
-From NQ Require Import Proofs.SdkRegProofs Proofs.SdkFrameProofs Proofs.SdkFlattenProofs Proofs.SdkLowerProofs.
+From NQ Require Import Proofs.SdkRegProofs Proofs.SdkFrameProofs Proofs.SdkFlattenProofs Proofs.SdkLowerProofs
+  Proofs.SdkInvProofs Proofs.SdkSimProofs Proofs.SdkTopProofs.
 Import ListNotations.
 Local Open Scope Z_scope.
 
-(* ---- the property at full strength (kept visible) *)
+(* ---- the property at full strength *)
+(* A program is a list of flush-free segments, each followed by a flush (every program that ends
+   with a flush has this form: prog_of).  Lowered by the builder model (fd = true: Qubit.free()
+   retires the handle, as the repaired tree does), flattened to labels and jumps, run block by
+   block on the controller from the initial state with the scripted outcomes: the run finishes
+   and ends with the gate trace and the arrays of direct evaluation. *)
 Definition sdk_compile_correct : Prop :=
-  forall fd p script e, wf_prog fd p script e ->
-  exists bs st fuel s,
-    lower_prog fd p = Ok (bs, st) /\ run_blocks fuel bs (m0 script) = RDone s /\ agrees s e.
-(* What is proved: steps 1, 2 and 3's frame of the plan, i.e.
-     1  C05_flatten_correct        structured IR = labels/jumps, arbitrary nesting  (full)
-     2  C05_lower_if / _loop / _foreach / _loop_until   induction steps against Eval's
-        iteration functions, for any simulation relation and any already-related body (full)
-        C05_lower_add / C05_lower_measure   the emitted instruction sequences (full)
-     3  C05_lower_frame, C05_live_values_preserved   (full)
-   and their composition with the builder model as far as C05_sdk_compile_correct_partial
-   goes: every flush block that lower emits runs, flattened, exactly as its structured form.
-   MISSING for sdk_compile_correct: the induction over the AST that instantiates the relation R
-   of step 2 with "handles of the host program vs controller state" (arrays, register futures,
-   loop variables, qubit ids/instances) and re-establishes the lowering-time state at every
-   loop round; none of the constructs is composed to that level, all are proved per construct.
-   The composed statement is exercised on every run by the behavioural oracle (Coq Eval by
-   vm_compute against the real pipeline) and, on the model, by C05_compile_correct_instance. *)
+  forall segs script e bs st,
+  Forall (fun seg => bwfs seg = true) segs ->
+  eval_prog (prog_of segs) script = Some e ->
+  lower_prog true (prog_of segs) = Ok (bs, st) ->
+  exists fuel s, run_blocks fuel bs (m0 script) = RDone s /\ agrees s e.
+
+(* PROVED IN FULL: C05_sdk_compile_correct below, by
+     1  C05_flatten_correct        structured IR = labels/jumps, arbitrary nesting
+     2  C05_lower_if / _loop / _foreach / _loop_until / _add / _measure, C05_lower_array_init
+     3  C05_lower_frame, C05_live_values_preserved
+     4  C05_stmt_compile_correct / C05_block_compile_correct: induction over the AST.  For every
+        statement satisfying `wfs` — gates, qubit allocation and release, measurement into array
+        futures, fresh arrays and register futures, add on futures and register futures (with /
+        without modulus; int / Future / loop-register operand), if with the six conditions (context
+        or callback; int / Future / RegFuture / loop operands), loop and loop_body (positive and
+        negative steps), foreach / enumerate, loop_until with at-most bound and cleanup, NESTED
+        ARBITRARILY — if direct evaluation takes e to e' and the builder model emits code c, then
+        running c from any controller state related to e reaches a state related to e'.  `Rel`
+        ties every host handle to the controller (arrays, lengths known at compile time, qubit
+        handles <-> virtual ids and instances, register futures <-> M registers, loop variables
+        <-> R registers, script, trace) and is re-established at every round of every loop.
+     5  C05_block_step: one flush block — the declarations/initialisations prepended at the flush
+        (all-equal loop included) create exactly the arrays Eval hoists; the body; ret_arr /
+        ret_reg do not fault; reset.  At every flush the controller arrays are the snapshot's.
+     6  induction over the blocks (prog_sim).
+   ALL constructs of the property are composed; nothing is left per construct only.
+   Restrictions carried by `wfs` (Sdk/Wf.v; decidable on the program): registers chosen by the SDK
+   (no loop_register=, no new_register; those are covered by the oracle only); no EPR; a body consumes
+   the qubits it creates and no others (C09); register futures are measured only where the
+   measurement runs whenever the enclosing code runs (not under `if`, not in a loop with zero rounds,
+   not in foreach, not in a cleanup: the complement contains the recorded finding
+   C05:ret_reg-of-unreached-register-measurement — see C05_unrestricted_refuted); a loop_until body
+   certainly emits commands (otherwise the builder drops the loop AND its cleanup).  Model side:
+   names of register futures and loop variables are bound once; a measurement register future is an
+   operand only in its flush block.  Not in the statement: assembler (C03), executor (C04) — the
+   target semantics is Sdk/Target.v; per-flush host reads are the controller arrays/registers of
+   C05_block_step (shared-memory transport is C15's). *)
 
 (* without `regs_reached` the statement is false of the faithful model (and of the code) *)
 Definition sdk_compile_correct_unrestricted : Prop :=
-  forall fd p script e, scoped_top p = true -> eval_prog p script = Some e ->
+  forall fd p script e, eval_prog p script = Some e ->
   forall bs st, lower_prog fd p = Ok (bs, st) ->
   exists fuel s, run_blocks fuel bs (m0 script) = RDone s.
 
@@ -44,7 +70,7 @@ Definition witness_unreached : block :=
    execution is fine; 1000 steps of fuel for 12 commands without a backward jump *)
 Theorem C05_unrestricted_refuted :
   exists p script e bs st pc,
-    scoped_top p = true /\ eval_prog p script = Some e /\ lower_prog false p = Ok (bs, st) /\
+    eval_prog p script = Some e /\ lower_prog false p = Ok (bs, st) /\ wf_top p = false /\
     run_blocks 1000 bs (m0 script) = RFault pc /\ regs_reached p e = false.
 Proof.
   exists witness_unreached, [0].
@@ -138,24 +164,105 @@ Theorem C05_lower_measure : forall s id mreg a ix l k o,
 Proof. exact lower_measure. Qed.
 
 (* ---- 3. frame *)
-Theorem C05_lower_frame : forall fd s st c st',
+Theorem C05_lower_frame : forall fd s st c st', plain s = true ->
   lower_stmt fd s st = Ok (c, st') -> forall k, In k (sws c) -> nth_error (l_act st) k = Some false.
 Proof. exact lower_frame. Qed.
 
-Theorem C05_live_values_preserved : forall fd s st c st' m m',
+Theorem C05_live_values_preserved : forall fd s st c st' m m', plain s = true ->
   lower_stmt fd s st = Ok (c, st') -> lv_active st -> sx c m m' ->
   forall v r, In (v, r) (l_lv st) -> m_reg m' (Rg BR r) = m_reg m (Rg BR r).
 Proof. exact live_values_preserved. Qed.
 
-(* ---- composition reached so far *)
-Theorem C05_sdk_compile_correct_partial : forall fd p bs st,
-  lower_prog fd p = Ok (bs, st) ->
-  forall b, In (Some b) bs -> forall s s', sx b s s' ->
-  NoDup (labs (flatten b)) /\ exists fuel, frun fuel (flatten b) (0%nat, s) = Some s'.
+(* ---- 4. the composition over the AST *)
+Theorem C05_stmt_compile_correct : forall s L st c st' e e' sg,
+  wfs s = true -> lower_stmt true s st = Ok (c, st') -> Inv st -> sub (l_len st') L ->
+  eval_stmt s e = Some e' -> Rel L st e sg ->
+  exists sg', sx c sg sg' /\ Rel L st' e' sg'.
+Proof. exact stmt_compile_correct. Qed.
+
+Theorem C05_block_compile_correct : forall b L st c st' e e' sg,
+  bwfs b = true -> lower_block true b st = Ok (c, st') -> Inv st -> sub (l_len st') L ->
+  eval_block b e = Some e' -> Rel L st e sg ->
+  exists sg', sx c sg sg' /\ Rel L st' e' sg'.
+Proof. exact block_compile_correct. Qed.
+
+(* the relation and the invariant hold initially *)
+Theorem C05_initial_related : forall script, Inv l0 /\ Rel [] l0 (e0 script) (m0 script).
+Proof. intro script. split; [exact Inv_l0|exact (Rel_init script)]. Qed.
+
+(* ---- 5/6. flush blocks and whole programs *)
+Theorem C05_lower_array_init : forall a v t len s,
+  m_arr s a = Some (repeat None len) ->
+  exists s', sx1 (XLoop (Rg BR t) 0 (Z.of_nat len) 1 [XI (IStore (PImm v) a (PReg (Rg BR t)))]) s s' /\
+             m_arr s' a = Some (repeat (Some v) len) /\
+             (forall a', a' <> a -> m_arr s' a' = m_arr s a') /\ same_ctl s s'.
+Proof. exact lower_array_init. Qed.
+
+Theorem C05_block_step : forall seg st0 c st1 blk st2 e0 e1 s0,
+  bwfs seg = true -> Inv st0 -> BlockStart st0 -> TRel st0 e0 s0 ->
+  lower_block true seg st0 = Ok (c, st1) -> lower_flush c st1 = Ok (blk, st2) ->
+  eval_block seg (with_arr e0 (hoist_block seg (e_arr e0))) = Some e1 ->
+  exists s2, (match blk with Some code => sx code s0 s2 | None => s2 = s0 end) /\
+             Inv st2 /\ BlockStart st2 /\ TRel st2 (snap e1) s2.
+Proof. exact block_step. Qed.
+
+Theorem C05_sdk_compile_correct : sdk_compile_correct.
+Proof. exact sdk_compile_correct_wfs. Qed.
+
+(* ---- down to the commands that are sent, one block body *)
+Theorem C05_sdk_compile_correct_partial : forall b L st c st' e e' sg,
+  bwfs b = true -> lower_block true b st = Ok (c, st') -> Inv st -> sub (l_len st') L ->
+  eval_block b e = Some e' -> Rel L st e sg ->
+  exists sg' fuel, frun fuel (flatten c) (0%nat, sg) = Some sg' /\ Rel L st' e' sg' /\
+                   NoDup (labs (flatten c)).
 Proof.
-  intros fd p bs st _ b _ s s' H. split; [apply flatten_labels_unique|].
-  exact (proj2 (flatten_correct b s s' H)).
+  intros b L st c st' e e' sg Hw Hl I HL Hev HR.
+  destruct (block_compile_correct b L st c st' e e' sg Hw Hl I HL Hev HR) as (sg' & X & R').
+  destruct (proj2 (flatten_correct c sg sg' X)) as (fuel & F).
+  exists sg', fuel. split; [exact F|]. split; [exact R'|apply flatten_labels_unique].
 Qed.
+
+(* non-vacuity of the whole-program theorem: the hypotheses hold of ex_p below (checked by
+   computation in C05_compile_correct_instance) *)
+(* non-vacuity of the composition: a nested block (foreach / if on a Future / add with modulus /
+   loop_until with cleanup / count-down loop_body with an if on its index) satisfies wfs, lowers,
+   evaluates, and the emitted code, flattened, reaches the related final state by computation *)
+Definition ex_body : block :=
+  blk [SNewQubit 0;
+       SForeach true 0 0 (blk [SIf CEq false (VFut 0 (IxV 0)) (VInt 1)
+                                 (blk [SGate GH 0; SFutAdd 1 (IxC 0) (AFut 0 (IxV 0)) (Some 2)])]);
+       SLoopUntil 1 3 (blk [SNewQubit 1; SGate GX 1; SMeasFut 1 false 1 (IxC 1)]) (VFut 1 (IxC 1)) 0
+                  (blk [SFutAdd 1 (IxC 0) (AInt 10) None]);
+       SLoop true 2 None 4 0 (-2) (blk [SIf CLt true (VLoop 2) (VFut 1 (IxC 0)) (blk [SRot AZ 0 3 2])]);
+       SMeasReg 0 false 0].
+
+Example C05_composition_nonvacuous : bwfs ex_body = true.
+Proof. vm_compute. reflexivity. Qed.
+
+(* the hypotheses of C05_sdk_compile_correct hold of a two-block program with arrays (one initialised
+   by the all-equal loop), foreach + if + add, loop_until with cleanup, loop_body with an if on its
+   index, a measurement into a fresh array; and its conclusion is observed by computation *)
+Definition ex_segs : list block :=
+  [ blk [SNewArray 0 3 (Some [Some 1; Some 1; Some 1]); SNewArray 1 2 (Some [Some 0; Some 5]); SNewQubit 0;
+         SForeach true 0 0 (blk [SIf CEq false (VFut 0 (IxV 0)) (VInt 1)
+                                   (blk [SGate GH 0; SFutAdd 1 (IxC 0) (AFut 0 (IxV 0)) (Some 2)])])];
+    blk [SLoopUntil 1 3 (blk [SNewQubit 1; SGate GX 1; SMeasFut 1 false 1 (IxC 1)]) (VFut 1 (IxC 1)) 0
+                    (blk [SFutAdd 1 (IxC 0) (AInt 10) None]);
+         SLoop true 2 None 0 4 2 (blk [SIf CLt true (VLoop 2) (VFut 1 (IxC 0)) (blk [SRot AZ 0 3 2])]);
+         SMeasNew 0 false 2] ].
+
+Example C05_whole_program_nonvacuous :
+  let script := [1; 0; 1] in
+  forallb bwfs ex_segs &&
+  match eval_prog (prog_of ex_segs) script, lower_prog true (prog_of ex_segs) with
+  | Some e, Ok (bs, _) =>
+      match run_blocks 2000 bs (m0 script) with
+      | RDone s => list_eqb tev_dec (rev (m_trace s)) (rev (e_trace e)) && Nat.leb 12 (List.length (e_trace e))
+      | _ => false
+      end
+  | _, _ => false
+  end = true.
+Proof. vm_compute. reflexivity. Qed.
 
 (* ---- the full statement on a concrete non-trivial program (model side): nested foreach / if
    with a Future operand / add with modulus / loop_until with cleanup / two flushes *)
@@ -166,7 +273,7 @@ Definition ex_p : block :=
        SFlush;
        SLoopUntil 1 3 (blk [SNewQubit 1; SGate GX 1; SMeasFut 1 false 1 (IxC 1)]) (VFut 1 (IxC 1)) 0
                   (blk [SFutAdd 1 (IxC 0) (AInt 10) None]);
-       SLoop true 2 0 4 2 (blk [SIf CLt true (VLoop 2) (VFut 1 (IxC 0)) (blk [SRot AZ 0 3 2])]);
+       SLoop true 2 None 0 4 2 (blk [SIf CLt true (VLoop 2) (VFut 1 (IxC 0)) (blk [SRot AZ 0 3 2])]);
        SMeasNew 0 false 2; SFlush].
 
 Example C05_compile_correct_instance :
@@ -222,5 +329,10 @@ Print Assumptions C05_lower_add.
 Print Assumptions C05_lower_measure.
 Print Assumptions C05_lower_frame.
 Print Assumptions C05_live_values_preserved.
+Print Assumptions C05_stmt_compile_correct.
+Print Assumptions C05_block_compile_correct.
+Print Assumptions C05_lower_array_init.
+Print Assumptions C05_block_step.
+Print Assumptions C05_sdk_compile_correct.
 Print Assumptions C05_sdk_compile_correct_partial.
 Print Assumptions C05_unrestricted_refuted.
